@@ -58,7 +58,8 @@ func dagBody(r *explore.Run, rep *report.R, sc, impl string, n int, fixed []int,
 		variant = r.Free(2, "constraints-on-p0-violated")
 	}
 	mode := 0 // 0 Init, 1 AddNodes+AddEdges
-	if modes > 1 {
+	if modes > 1 && (variant == 0 || n < 4) {
+		// (with 4 slots the violated-constraint variant is built by Init only)
 		mode = r.Free(2, "construction")
 	}
 	keys := g.keys()
@@ -249,9 +250,18 @@ func dagBody(r *explore.Run, rep *report.R, sc, impl string, n int, fixed []int,
 	// Replacing every lock package by an identical copy changes nothing.
 	cp := g.packages(func(int) string { return "v1.0.0" }, cons)
 	guard(r, "dag/add-or-update/"+impl, func() { d.AddOrUpdateNodes(v1beta1.ToNodes(cp...)...) })
-	o2 := check("after AddOrUpdateNodes:")
-	if o1 != o2 {
-		r.Failf("dag/add-or-update/changed-results/"+impl, "graph %s: %s became %s", g, o1, o2)
+	// Everything is re-checked under the sorted and the reversed order; under
+	// the other orders only the node bookkeeping (it does not iterate maps).
+	if n < 4 || sortedOrReversed(perm) {
+		if o2 := check("after AddOrUpdateNodes:"); o1 != o2 {
+			r.Failf("dag/add-or-update/changed-results/"+impl, "graph %s: %s became %s", g, o1, o2)
+		}
+	} else {
+		for s := 0; s < g.n; s++ {
+			if d.NodeExists(src(s)) != inKeys[s] {
+				r.Failf("dag/node-exists/"+impl, "after AddOrUpdateNodes: graph %s: NodeExists(%s)=%v", g, src(s), !inKeys[s])
+			}
+		}
 	}
 
 	r.Logf("result %s", o1)
@@ -263,4 +273,13 @@ func dagBody(r *explore.Run, rep *report.R, sc, impl string, n int, fixed []int,
 	if nt != "" && g.edges() >= 3 && len(g.missing()) > 0 && wantSample(rep, fmt.Sprintf("dag/cyc=%v", cyc)) {
 		rep.Sample(map[string]any{"part": "dag", "impl": impl, "graph": g.String(), "map_order": perm, "construction": mode, "cyclic": cyc, "observed": o1, "implied": ids(implied), "choices": append([]int{}, r.Choices...), "scenario": sc})
 	}
+}
+
+func sortedOrReversed(p []int) bool {
+	up, down := true, true
+	for i := range p {
+		up = up && p[i] == i
+		down = down && p[i] == len(p)-1-i
+	}
+	return up || down
 }
